@@ -11,7 +11,7 @@ theorem build_golang_inv (cfg : Cfg) (load : Bool) (lr : LoadRes) (s : St) (hg :
     ∧ (buildHandshakeState cfg load lr s).1.hsDone = false
     ∧ (buildHandshakeState cfg load lr s).1.locked = false
     ∧ (buildHandshakeState cfg load lr s).1.tracker = .never := by
-  obtain ⟨hasCache, state, locked, tracker, calling, status, tRef, pRef, specT, userT, specP, userP, lT, lP, hsS, hsE, hT, hP, raw, ts, shares, filled, held, done⟩ := s
+  obtain ⟨hasCache, state, locked, tracker, calling, status, tRef, pRef, specT, userT, specP, userP, lT, lP, hsS, hsE, hT, hP, raw, ts, shares, filled, held, done, bfresh⟩ := s
   obtain ⟨golang, custom, cT, cP, skip, disabled⟩ := cfg
   cases status <;> cases state <;>
     simp_all [inv, buildHandshakeState, uAssert, okR, failR, R.andThen, keysOk, usable, freshObjs, pskSynced]
@@ -20,7 +20,7 @@ set_option maxHeartbeats 1000000 in
 theorem hsTail_inv (cfg : Cfg) (lr : LoadRes) (s : St) (h : inv cfg s = true)
     (hp : cfg.golang = false → s.locked = true) (hgo : cfg.golang = true → s.tracker = .never) :
     inv cfg (hsTail cfg lr s).1 = true ∧ (hsTail cfg lr s).2 = none ∧ (hsTail cfg lr s).1.hsDone = true := by
-  obtain ⟨hasCache, state, locked, tracker, calling, status, tRef, pRef, specT, userT, specP, userP, lT, lP, hsS, hsE, hT, hP, raw, ts, shares, filled, held, done⟩ := s
+  obtain ⟨hasCache, state, locked, tracker, calling, status, tRef, pRef, specT, userT, specP, userP, lT, lP, hsS, hsE, hT, hP, raw, ts, shares, filled, held, done, bfresh⟩ := s
   obtain ⟨golang, custom, cT, cP, skip, disabled⟩ := cfg
   cases golang with
   | false =>
